@@ -33,7 +33,7 @@ let of_pybool = function
 let mk_installed names = let ns = to_list to_chars names in fun n -> List.mem n ns
 let mk_world outs =
   let al = to_list (to_pair to_chars to_chars) outs in
-  fun _ c -> match split_ws c with
+  fun _ c -> match sv_split_ws c with
     | [] -> []
     | s :: _ -> (try List.assoc s al with Not_found -> [])
 
@@ -47,6 +47,6 @@ let () =
   register "is_satisfiable" (function [q; c; s; inst; outs] ->
       of_pybool (is_satisfiable (to_quirks q) (to_opt to_chars c) (to_opt to_chars s) (mk_installed inst) (mk_world outs)) | _ -> raise (Bad "arity"));
   register "splitlines" (function [t] -> of_list of_chars (splitlines (to_chars t)) | _ -> raise (Bad "arity"));
-  register "split_ws" (function [t] -> of_list of_chars (split_ws (to_chars t)) | _ -> raise (Bad "arity"));
-  register "parse_int" (function [t] -> of_opt of_z (parse_int (to_chars t)) | _ -> raise (Bad "arity"));
+  register "sv_split_ws" (function [t] -> of_list of_chars (sv_split_ws (to_chars t)) | _ -> raise (Bad "arity"));
+  register "sv_parse_int" (function [t] -> of_opt of_z (sv_parse_int (to_chars t)) | _ -> raise (Bad "arity"));
   register "sort_abs" (function [l] -> of_zl (sort_abs (to_zl l)) | _ -> raise (Bad "arity"))
